@@ -41,8 +41,39 @@ class FixedDT(_dt.datetime):
         return cls(2026, 1, 2, 3, 4, 5)
 
 
+class _Patches:
+    def __init__(self, patches):
+        self.patches = patches
+
+    def __enter__(self):
+        for p in self.patches:
+            p.start()
+        return self
+
+    def __exit__(self, *a):
+        for p in reversed(self.patches):
+            p.stop()
+
+
 def patched_clock():
-    return mock.patch("pyxel.outputs.outputs.datetime", FixedDT)
+    """fix the clock of the output code wherever it took `datetime` from (the class or the module, under any local
+    name, in any module of pyxel.outputs) — no assumption about private names or import style"""
+    import types
+
+    import pyxel.outputs  # noqa: F401  (loads the sub-modules)
+
+    patches = []
+    for name, mod in list(sys.modules.items()):
+        if not name.startswith("pyxel.outputs") or mod is None:
+            continue
+        for attr, val in list(vars(mod).items()):
+            if val is _dt.datetime:
+                patches.append(mock.patch.object(mod, attr, FixedDT))
+            elif val is _dt:
+                fake = types.SimpleNamespace(**{k: getattr(_dt, k) for k in dir(_dt) if not k.startswith("__")})
+                fake.datetime = FixedDT
+                patches.append(mock.patch.object(mod, attr, fake))
+    return _Patches(patches)
 
 
 # ------------------------------------------------------------------ folder helpers
@@ -94,13 +125,14 @@ def check_preexisting(before, after, run_dirs):
 
 # ------------------------------------------------------------------ directory streams
 def impl_dirs_sequential(case, parent):
-    from pyxel.outputs.outputs import create_output_directory
+    from pyxel.outputs import ExposureOutputs
 
     out = []
     with patched_clock():
         for pre in case["prefixes"]:
-            d = create_output_directory(parent, custom_dir_name=pre or None)
-            out.append(os.path.basename(str(d)))
+            o = ExposureOutputs(output_folder=parent, custom_dir_name=pre)
+            o.create_output_folder()
+            out.append(os.path.basename(str(o.current_output_folder)))
     return out
 
 
@@ -132,11 +164,13 @@ def impl_dirs_threads(case, parent):
 def _proc_dir(args):
     parent, pre = args
     common.ensure_repo_on_path()
-    from pyxel.outputs.outputs import create_output_directory
+    from pyxel.outputs import ExposureOutputs
 
     with patched_clock():
         try:
-            return os.path.basename(str(create_output_directory(parent, custom_dir_name=pre or None)))
+            o = ExposureOutputs(output_folder=parent, custom_dir_name=pre)
+            o.create_output_folder()
+            return os.path.basename(str(o.current_output_folder))
         except Exception as e:  # noqa: BLE001
             return "ERR:" + common.err_kind(e)
 
